@@ -96,6 +96,101 @@ def _inside_case(rng, cls):
     return {"cls": cls, "script": g.script(4) if rng.random() < 0.4 else [], "fuel": 400, "ops": ops}
 
 
+# ------------------------------------------------------------------ non-dyadic float times (implementation + oracle only)
+def _fcase(ops):
+    return {"cls": "DEVS", "float": True, "script": [], "fuel": 400, "ops": ops}
+
+
+def _float_pair_cases(kmax):
+    """every pair of one-decimal times now <= t (tenths up to kmax/10): an event requested for t up front (clock 0), the clock
+    advanced to `now` by run_until, a second event requested for the same t with another priority - once from the top
+    level, once from inside an event that runs at `now` - then run_until(t) exactly on the requested time"""
+    for a in range(1, kmax + 1):
+        for b in range(a, kmax + 1):
+            now, t = a / 10, b / 10
+            yield _fcase([["sched", "abs", t, True, "L", 1, 0, []], ["until", now, True],
+                          ["sched", "abs", t, True, "H", 2, 0, []], ["peek", 2], ["until", t, True]])
+            yield _fcase([["sched", "abs", t, True, "D", 1, 0, []],
+                          ["sched", "abs", now, True, "D", 2, 0, [["sched", "abs", t, True, "H", 3, 0, []],
+                                                                  ["sched", "abs", t, True, "L", 4, 0, []]]],
+                          ["until", t, True]])
+
+
+def _float_case(rng):
+    """decimal tenths / hundredths; the clock is moved to non-zero non-dyadic values (run_until to a decimal, run_for by decimal
+    deltas so that it becomes a rounded sum) before events are requested for absolute decimal times, several of them for
+    the same requested time with different priorities; horizons exactly on requested times"""
+    tag = [0]
+    requested = []          # absolute times asked for so far
+
+    def nt():
+        tag[0] += 1
+        return tag[0]
+
+    def dec(lo):
+        if requested and rng.random() < 0.45:
+            c = [t for t in requested if t >= lo]
+            if c:
+                return rng.choice(c)
+        if rng.random() < 0.8:
+            k = int(lo * 10) + rng.randint(0, 14)
+            return k / 10
+        k = int(lo * 100) + rng.randint(0, 90)
+        return k / 100
+
+    def sched(lo, depth):
+        kind = rng.choice(["abs", "abs", "abs", "abs", "rel", "now"])
+        if kind == "abs":
+            t = dec(lo)
+            if rng.random() < 0.04 and lo > 0.2:
+                t = round(lo - rng.choice([0.1, 0.2]), 2)        # in the past (unless the clock is lower than believed)
+            requested.append(t)
+        elif kind == "rel":
+            t = rng.choice([0.0, 0.1, 0.1, 0.2, 0.3, 0.7, 1.1, 0.05, 0.25, -0.1])
+        else:
+            t = 0.0
+        body = []
+        if depth > 0 and rng.random() < 0.4:
+            inner_lo = t if kind == "abs" else lo
+            for _ in range(rng.randint(1, 3)):
+                if rng.random() < 0.85:
+                    body.append(sched(max(inner_lo, lo), depth - 1))
+                elif tag[0]:
+                    body.append(["cancel", rng.randint(1, tag[0])])
+        return ["sched", kind, t, True, rng.choice(["H", "D", "D", "L"]), nt(), 0, body]
+
+    ops = []
+    clk = 0.0
+    for _ in range(rng.randint(1, 4)):
+        ops.append(sched(0.0, 1))
+    for _ in range(rng.randint(2, 4)):
+        x = rng.random()
+        if x < 0.55:
+            c = [t for t in requested if t >= clk]
+            clk = rng.choice(c) if c and rng.random() < 0.6 else dec(clk)
+            ops.append(["until", clk, True])
+        elif x < 0.9:
+            d = rng.choice([0.1, 0.1, 0.2, 0.3, 0.7, 0.05])
+            clk = clk + d
+            ops.append(["for", d, True])
+        else:
+            ops.append(["next"])
+            clk = max([clk] + requested)
+        for _ in range(rng.randint(2, 5)):
+            ops.append(sched(clk, 1))
+        if rng.random() < 0.3:
+            ops.append(["peek", rng.randint(1, 6)])
+        if rng.random() < 0.2 and tag[0]:
+            ops.append(["cancel", rng.randint(1, tag[0])])
+    c = [t for t in requested if t >= clk]
+    if c:
+        clk = rng.choice(c)
+        ops.append(["until", clk, True])
+    clk = max([clk] + requested) + 0.5
+    ops.append(["until", clk, True])
+    return _fcase(ops)
+
+
 def gen_cases(rng, tier):
     n = 700 if tier == "quick" else 50000
     cases = []
@@ -108,6 +203,10 @@ def gen_cases(rng, tier):
             cases.append(_peek_case(rng, cls))
         else:
             cases.append(_inside_case(rng, cls))
+    # non-dyadic float times: implementation + oracle only (run_impl answers "model": False for them)
+    cases += list(_float_pair_cases(20 if tier == "quick" else 40))
+    for _ in range(200 if tier == "quick" else 4000):
+        cases.append(_float_case(rng))
     return cases
 
 
@@ -145,7 +244,7 @@ RULE = ("histories = one simulator (ABMSimulator or DEVSimulator, after setup) +
         "cancel_event, dropping the object whose bound method / function is the callable, 4% of the general histories on a simulator that was never set up, run_until / run_for / run_next_event (4% with a horizon outside the statement), "
         "peak_ahead(n); events carry user code that itself schedules / cancels / drops; three families: general (60%), "
         "peek after shuffled pushes (20%), scheduling from inside running events with 35% rejected calls (20%); "
-        "non-trivial = at least 3 ops and one run call that executed something; distinct = by SHA1 of the history")
+        "plus a float stream without model run: every pair of one-decimal times now <= t (up to 2.0 quick / 4.0 thorough) with a tie in requested time, from the top level and from inside an event, and 200 (4000) random decimal histories; non-trivial = at least 3 ops and one run call that executed something; distinct = by SHA1 of the history")
 TRUSTED_BASE = [
     "Coq 8.16.1 kernel (coqc); vm_compute for finite facts and for evaluating the model in the correspondence",
     "no axioms: Print Assumptions reports 'Closed under the global context' for every C14 theorem",
@@ -162,6 +261,8 @@ ASSUMPTIONS = [
     "all times and deltas are multiples of 1/8 with small numerators (exact in binary64); model time = Z counting 1/8",
     "user callables are the DSL of devs_common.py; a schedule call made from user code is wrapped in try/except",
     "run_until(t) with t before the current time and non-integer ABMSimulator horizons are outside the statement: generated rarely, modelled, not judged",
+    "non-dyadic float times (decimal tenths / hundredths, DEVSimulator) are checked by the implementation-side oracle only, on the Python floats as "
+    "given: an absolute request keeps exactly the requested float, a relative one gets now + delta as the simulator computes it; the Gallina model is not run on them",
     "peak_ahead lists non-cancelled events (an event whose callable died is still listed, as in the code)",
 ]
 LEVEL_TEXT = ("Machine-checked Coq theorems over a Gallina transcription of EventList and the simulators (after the three fix: "
